@@ -1051,7 +1051,7 @@ impl<'t, 'c> Gen<'t, 'c> {
     /// [poison; failing statement] of a kind; `kind` 4 (out of data) only when asked.
     fn failing(&mut self, cv: &ControlVars, kind: usize) -> Vec<Stmt> {
         match kind {
-            0 => vec![Stmt::Assign(cv.z.clone(), lit_i(0)), Stmt::Assign(cv.sres.clone(), b(BinOp::Div, lit_i(8), ld(&cv.z)))],
+            0 => vec![Stmt::Assign(cv.z.clone(), lit_i(0)), Stmt::Assign(cv.sres.clone(), b(BinOp::Div, Expr::Lit(Lit::Frac { num: 17, shift: 1, double: false }), ld(&cv.z)))],
             1 => vec![Stmt::Assign(cv.big.clone(), Expr::Lit(Lit::Whole(100000))), Stmt::Assign(cv.small.clone(), ld(&cv.big))],
             2 => vec![
                 Stmt::Assign(cv.idx.clone(), lit_i(*self.t.pick(&[5i64, 3, -1, 99]))),
@@ -1109,7 +1109,7 @@ impl<'t, 'c> Gen<'t, 'c> {
         let a = self.fresh_counter(Ty::Int);
         let bb = self.fresh_counter(Ty::Int);
         let label = self.new_label("LX");
-        let inner_kind = self.t.choose(3);
+        let inner_kind = *self.t.pick(&[2usize, 0, 1, 2]);
         let target_inside_outer = self.t.chance(2, 3);
         let trig = 1 + self.t.choose(2) as i64;
         let jump = Stmt::IfLine { cond: b(BinOp::Eq, ld(&bb), lit_i(trig)), then_: Box::new(Stmt::Goto(label.clone())), else_: None };
@@ -1134,7 +1134,14 @@ impl<'t, 'c> Gen<'t, 'c> {
             1 => Some(lit_i(1)),
             _ => Some(lit_i(2)),
         };
-        let mut v = vec![Stmt::For { var: a.clone(), from: lit_i(1), to: lit_i(3), step: outer_step, body: outer_body, next_names: false }];
+        let mut v = if self.t.chance(1, 2) {
+            vec![Stmt::For { var: a.clone(), from: lit_i(1), to: lit_i(3), step: outer_step, body: outer_body, next_names: false }]
+        } else {
+            // outer loop as a DO with the counter advanced first (so that a jump to a label in the body cannot skip it)
+            let mut bd = vec![Stmt::Assign(a.clone(), b(BinOp::Add, ld(&a), lit_i(1)))];
+            bd.extend(outer_body);
+            vec![Stmt::Assign(a.clone(), lit_i(0)), Stmt::Do { kind: DoKind::TopWhile, cond: b(BinOp::Lt, ld(&a), lit_i(3)), body: bd }]
+        };
         if !target_inside_outer {
             v.push(self.tok("s"));
             v.push(Stmt::Label(label));
@@ -1172,6 +1179,11 @@ impl<'t, 'c> Gen<'t, 'c> {
         let mut active: Option<usize> = None;
         let segs = 2 + self.t.choose(7);
         let mut has_data = false;
+        if self.t.chance(2, 3) {
+            let h = self.t.choose(nh);
+            main.push(Stmt::OnErrorGoto(Some(handler_labels[h].clone())));
+            active = Some(h);
+        }
         for _ in 0..segs {
             match self.t.choose(12) {
                 0 | 1 => main.push(self.tok("t")),
